@@ -65,6 +65,10 @@ def vectorize_mode(repo):
                 comp = n.value
                 if isinstance(comp, ast.DictComp) and comp.generators[0].ifs:
                     problems.append(("P0-all-functions", fl.loc(n), "only a filtered subset of the functions is vectorised"))
+                if isinstance(comp, ast.DictComp) and not (
+                    isinstance(comp.value, ast.Call) and isinstance(comp.value.func, ast.Name) and comp.value.func.id == "_vectorize_func"
+                ):
+                    problems.append(("P0-all-functions", fl.loc(n), f"functions are vectorised only conditionally: `{ast.unparse(comp.value)}`"))
     if applied is None:
         problems.append(("P0-all-functions", fl.loc(lc), "load_and_check_functions no longer maps _vectorize_func over the loaded functions"))
     else:
